@@ -186,17 +186,25 @@ inductive Reach where
   | ok          -- the request was sent and answered
   | tlsFail     -- connected, TLS handshake failed
   | refused     -- no connection
+  | reset       -- connected, the peer closed the connection before the TLS handshake
+  | dropped     -- connected, handshake done, request sent, the peer closed the connection without answering
   deriving Repr, DecidableEq
 
+/-- The network as RoundTrip meets it: the outcome of an attempt may depend on everything attempted before
+    in this RoundTrip (a server that fails once and then answers), so it is a function of the attempts so
+    far and the target. -/
+abbrev Network := List (Target × Reach) → Target → Reach
+
 /-- the `for _, result := range resolutionResults` loop: attempts in order, stopping at the first success.
-    Each attempt uses URL host = Destination, Host header = Host, TLS server name = TLSServerName. -/
-def tryTargets (reach : Target → Reach) : List Target → List (Target × Reach) × Bool
+    Each attempt uses URL host = Destination, Host header = Host, TLS server name = TLSServerName.
+    `hist` = the attempts made before. -/
+def tryTargets (reach : Network) (hist : List (Target × Reach)) : List Target → List (Target × Reach) × Bool
   | [] => ([], false)
   | t :: ts =>
-    match reach t with
+    match reach hist t with
     | .ok => ([(t, .ok)], true)
     | r =>
-      let (rest, ok) := tryTargets reach ts
+      let (rest, ok) := tryTargets reach (hist ++ [(t, r)]) ts
       ((t, r) :: rest, ok)
 
 structure Trip where
@@ -209,7 +217,7 @@ structure Trip where
 /-- RoundTrip for one server name, given its resolutionCache entry.  When every target fails the cache
     entry is deleted and the loop runs once more — over the same results: the local variable still holds
     them, so ResolveServer is not called again. -/
-def roundTrip (o : Oracles) (name : Str) (reach : Target → Reach) (cache : Option (List Target)) : Except Err Trip :=
+def roundTrip (o : Oracles) (name : Str) (reach : Network) (cache : Option (List Target)) : Except Err Trip :=
   let fresh : Except Err (List Target × Bool) :=
     match cache with
     | some (t :: ts) => .ok (t :: ts, false)
@@ -222,10 +230,10 @@ def roundTrip (o : Oracles) (name : Str) (reach : Target → Reach) (cache : Opt
   | .ok (results, resolved) =>
     if results.isEmpty then .error (.other "no-address-found")
     else
-      let (a1, ok1) := tryTargets reach results
+      let (a1, ok1) := tryTargets reach [] results
       if ok1 then .ok ⟨a1, true, resolved, some results⟩
       else
-        let (a2, ok2) := tryTargets reach results
+        let (a2, ok2) := tryTargets reach a1 results
         .ok ⟨a1 ++ a2, ok2, resolved, none⟩
 
 /-! ## Specification: Server-Server API, "Resolving server names" -/
